@@ -1,6 +1,6 @@
 (* Props/C13.v — property theorems only. *)
 From Coq Require Import List NArith.
-From N0 Require Import Base.PyStr Base.PyVal Codec.Csv Codec.CsvProofs.
+From N0 Require Import Base.PyStr Base.PyVal Codec.Csv Codec.CsvProofs Codec.CsvInjective.
 Import ListNotations.
 
 (* Parsing the line produced by the library's row generator returns exactly the
@@ -40,3 +40,22 @@ Theorem C13_nonvacuous :
   parse_line 44 (gen_w 44 row ++ [LF]) = Some row.
 Proof. exact parse_gen_example. Qed.
 Print Assumptions C13_nonvacuous.
+
+(* Unambiguity: a generated line determines its fields.  Two rows written as the
+   same line - by the library's generator with any line endings, or one by the
+   generator and one by csv.writer - are the same row. *)
+Theorem C13_gen_row_injective :
+  forall d, d <> Q -> forall r1 r2 e1 e2,
+  nocrlf d -> r1 <> [] -> r2 <> [] -> Forall (Forall nocrlf) r1 -> Forall (Forall nocrlf) r2 ->
+  is_eol e1 -> is_eol e2 ->
+  gen_row d r1 e1 = gen_row d r2 e2 -> r1 = r2.
+Proof. exact gen_row_injective. Qed.
+Print Assumptions C13_gen_row_injective.
+
+Theorem C13_gen_row_csv_writer_injective :
+  forall d, d <> Q -> forall r1 r2 e1 e2,
+  nocrlf d -> r1 <> [] -> r2 <> [] -> Forall (Forall nocrlf) r1 -> Forall (Forall nocrlf) r2 ->
+  is_eol e1 -> is_eol e2 ->
+  gen_row d r1 e1 = gen_w d r2 ++ e2 -> r1 = r2.
+Proof. exact gen_row_gen_w_injective. Qed.
+Print Assumptions C13_gen_row_csv_writer_injective.
